@@ -91,6 +91,10 @@ pub const FAMILIES: &[Family] = &[
         s
     } },
     Family { name: "subrule-self-in-ruledef", nesting: true, gen: |n, _| format!("#ruledef mode\n{{\n    {{m: mode}} => m\n    j{{m: mode}} => 0x1 @ m\n}}\n{}jeq = 0xff\n", rep("nop\n", n.min(3))) },
+    // added after round-4 seed C19-4: a bank with a non-zero output offset and no size, position near the top of the word
+    Family { name: "addr-in-bank-with-outp", nesting: false, gen: |_, k| format!("#bankdef a\n{{\n    addr = 0\n    outp = 16\n}}\n#addr {}\n#d8 0xaa\n", k) },
+    Family { name: "addr-then-instr-in-bank-with-outp", nesting: false, gen: |_, k| format!("#ruledef\n{{\n    nop => 0x00\n}}\n#bankdef a\n{{\n    outp = 8 * 0x10\n}}\n#addr {}\nnop\nl:\n", k) },
+    Family { name: "res-in-bank-with-outp", nesting: false, gen: |_, k| format!("#bankdef a\n{{\n    outp = 24\n}}\n#res {}\n#d8 1\n", k) },
     Family { name: "type-width-subrule", nesting: false, gen: |_, k| format!("#subruledef r\n{{\n    {{v: u{}}} => v\n}}\n#ruledef\n{{\n    t {{a: r}} => a @ a\n}}\nt 1\n", k) },
 ];
 
@@ -110,6 +114,10 @@ pub fn magnitudes() -> Vec<String> {
     // appended later (slots are stable): just below the supported size, where only a combination exceeds it
     v.push("400000000".to_string());
     v.push("799999999".to_string());
+    // appended for byte-addressed positions within a few bytes of the top of the machine word (2^61 bytes = 2^64 bits)
+    for d in [3u64, 2, 1, 0] {
+        v.push(((1u64 << 61) - d).to_string());
+    }
     v
 }
 
